@@ -1820,6 +1820,144 @@ def rule_compose_value(chk, idx):
 
 
 # ---------------------------------------------------------------------------------------------------
+# rule 12: tokens of the time / date-time extractors take their offsets from the match, not from a text search
+
+# sites of the `text.index(match.group())` idiom that exist today, confirmed by reading (frozen; keyed by function and statement)
+TOKEN_OFFSET_EXEMPT = {
+    ('BaseTimeExtractor.before_after_regex_match',
+     'result.append(Token(source.index(match.group()), source.index(match.group()) + (match.end() - match.start())))'):
+        'only reached under DateTimeOptions.CALENDAR (the property is stated for default options); the loop iterates a single '
+        'Match object returned by Pattern.match, i.e. the branch does not produce tokens at all',
+    ('BaseDateTimeExtractor.merge_date_and_time', 'node.start = source.index(match.group())'):
+        'only reached under DateTimeOptions.CALENDAR (numbers used as time points in calendar mode); not a default-option path',
+}
+
+
+def _is_text_search_of_match(e):
+    """<text>.index(<m>.group(..)) / .find(<m>.group(..)) / .index(<m>.value)"""
+    if isinstance(e, ast.Call) and isinstance(e.func, ast.Attribute) and e.func.attr in ('index', 'find', 'rfind', 'rindex') and e.args:
+        a_ = e.args[0]
+        if isinstance(a_, ast.Call) and isinstance(a_.func, ast.Attribute) and a_.func.attr in ('group', 'get_group'):
+            return True
+        if isinstance(a_, ast.Attribute) and a_.attr == 'value':
+            return True
+    return False
+
+
+def _is_match_offset(e):
+    return isinstance(e, ast.Call) and isinstance(e.func, ast.Attribute) and e.func.attr in ('start', 'end', 'span') \
+        and len(e.args) <= 1
+
+
+def token_offset_sites(fn):
+    """[(statement, kind)] kind = 'search' | 'match' for Token(...) constructions and <x>.start assignments of fn"""
+    defs = local_defs(fn)
+    single = {k: v[0] for k, v in defs.items() if len(v) == 1}
+
+    def classify(expr, depth=0):
+        kinds = set()
+        for n in ast.walk(expr):
+            if _is_text_search_of_match(n):
+                kinds.add('search')
+            elif _is_match_offset(n):
+                kinds.add('match')
+            elif isinstance(n, ast.Name) and n.id in single and depth < 3:
+                kinds |= classify(single[n.id], depth + 1)
+        return kinds
+
+    par = parents_of(fn)
+    out = []
+    for n in ast.walk(fn):
+        expr = None
+        if isinstance(n, ast.Call) and isinstance(n.func, ast.Name) and n.func.id == 'Token':
+            expr = n
+        elif isinstance(n, ast.Assign) and any(isinstance(t, ast.Attribute) and t.attr == 'start' for t in n.targets):
+            expr = n.value
+        if expr is None:
+            continue
+        kinds = classify(expr)
+        if not kinds:
+            continue
+        st = n
+        while st in par and not isinstance(st, ast.stmt):
+            st = par[st]
+        out.append((st, 'search' if 'search' in kinds else 'match'))
+    return out
+
+
+def _option_gated(fn, st, par):
+    cur = st
+    while cur in par and cur is not fn:
+        p_ = par[cur]
+        if isinstance(p_, ast.If) and any(cur is x for x in p_.body):
+            for t in ast.walk(p_.test):
+                if isinstance(t, ast.Attribute) and isinstance(t.value, ast.Name) and t.value.id == 'DateTimeOptions' and t.attr != 'NONE':
+                    return True
+        cur = p_
+    return False
+
+
+OFFSET_CONTROL = """
+def match_to_token(source, match):
+    start = source.index(match.group())
+    return Token(start, start + (match.end() - match.start()))
+"""
+
+
+def rule_token_offsets(chk, idx):
+    rid = 'C07.token-offsets'
+    chk.rule(rid, 'time / date-time extractors: a token built from a regex match takes its offsets from match.start() / end(), not '
+                  'from a text search of the matched string (the first occurrence may be elsewhere)', floor=4, control=True)
+    ctl = token_offset_sites(ast.parse(OFFSET_CONTROL).body[0])
+    chk.control(rid, [k for _, k in ctl] == ['search'])
+
+    def ext_type(c):
+        k, f = idx.find_method(c, 'extractor_type_name')
+        if f is None:
+            return None
+        rets = [n for n in ast.walk(f) if isinstance(n, ast.Return) and n.value is not None]
+        v = make_evalc(idx, k.mod, k)(rets[0].value) if len(rets) == 1 else NOVAL
+        return v if isinstance(v, str) else None
+
+    used = set()
+    n = 0
+    for c in sorted(idx.all_classes(), key=lambda k: k.qual):
+        if not (c.mod.name == PKG or c.mod.name.startswith(PKG + '.')) or ext_type(c) not in ('time', 'datetime'):
+            continue
+        for name, fn in sorted(c.methods.items()):
+            if '#' in name:
+                continue
+            par = parents_of(fn)
+            counts = {}
+            for st, kind in token_offset_sites(fn):
+                n += 1
+                construct = '%s.%s' % (c.name, name)
+                text = ' '.join(ast.unparse(st).split())
+                detail = 'token offsets from %s' % ('the match' if kind == 'match' else 'a text search of the matched string')
+                counts[detail] = counts.get(detail, 0) + 1
+                if counts[detail] > 1:
+                    detail += ' (#%d)' % counts[detail]
+                chk.consulted(c.mod.path)
+                if kind == 'match':
+                    chk.ok(rid, c.mod.path, construct, detail, st.lineno)
+                    continue
+                key = (construct, text)
+                if key in TOKEN_OFFSET_EXEMPT and _option_gated(fn, st, par):
+                    used.add(key)
+                    chk.exempt(rid, c.mod.path, construct, TOKEN_OFFSET_EXEMPT[key], detail, st.lineno)
+                else:
+                    chk.bad(rid, c.mod.path, construct, detail,
+                            '`%s` places the token at the first occurrence of the matched text in the source, not at the match: '
+                            'when the same text occurs earlier (\'7/15 at 7\') the token lands there and is dropped as overlapping'
+                            % text[:110], st.lineno)
+    stale = sorted(set(TOKEN_OFFSET_EXEMPT) - used)
+    for k in stale:
+        chk.observe('C07.token-offsets: exempted site no longer present (or no longer option-gated): %s :: %s' % k)
+    if n < 4:
+        raise AnalysisError('only %d token constructions found in the time / date-time extractors' % n)
+
+
+# ---------------------------------------------------------------------------------------------------
 
 def run(chk):
     chk.explanation = ('contradiction rule on the time decoders (an int decoded from an hour/minute/second group must not be '
@@ -1836,6 +1974,7 @@ def run(chk):
     rule_ampm_split(chk, idx)
     rule_hour_table(chk, idx)
     rule_compose_value(chk, idx)
+    rule_token_offsets(chk, idx)
     chk.assume('RegExpUtility.get_group / get_group_list / Match.group return the text of the named group; group names '
                'hour/min/sec denote digit groups whose language contains 0 and 00 (the property quantifies over 00:00..23:59:59)')
     chk.assume('callee identity is by attribute name on DateTimeFormatUtil (to_pm, all_str_to_pm); no monkey patching')
